@@ -371,6 +371,7 @@ fn addr2<'a>(it: &mut impl Iterator<Item = &'a str>) -> v2::Addresses {
 }
 
 /// One encodable value; `write_to` dispatches to the crate's own implementation for that type.
+#[derive(Clone)]
 enum Pl {
     U8(u8),
     U16(u16),
@@ -530,12 +531,30 @@ fn build_bytes(c: &str, ops: &str) -> Result<Vec<u8>, String> {
                 }),
                 "P" => b.write_payload(payload(arg)),
                 "B" => {
-                    let items: Vec<Pl> = if arg == "-" {
-                        vec![]
-                    } else {
-                        arg.split('|').map(payload).collect()
-                    };
-                    b.write_payloads(items)
+                    // items `<n>*<payload>` are repeated n times; the batch is handed over as a Vec, as a filtering
+                    // iterator (size_hint lower bound 0) or as a `from_fn` iterator (no upper bound), by position
+                    let mut items: Vec<Pl> = Vec::new();
+                    if arg != "-" {
+                        for it in arg.split('|') {
+                            match it.split_once('*') {
+                                Some((n, p)) if n.bytes().all(|c| c.is_ascii_digit()) && !n.is_empty() => {
+                                    let pl = payload(p);
+                                    for _ in 0..n.parse::<usize>().unwrap() {
+                                        items.push(pl.clone());
+                                    }
+                                }
+                                _ => items.push(payload(it)),
+                            }
+                        }
+                    }
+                    match (i + items.len()) % 3 {
+                        0 => b.write_payloads(items),
+                        1 => b.write_payloads(items.into_iter().filter(|_| true)),
+                        _ => {
+                            let mut it = items.into_iter();
+                            b.write_payloads(std::iter::from_fn(move || it.next()))
+                        }
+                    }
                 }
                 "T" => {
                     let (k, v) = arg.split_once(':').unwrap();
@@ -631,11 +650,24 @@ fn run_rebuild(x: &[u8]) -> String {
     format!("R={} S={} I={} V={}", same(raw, want), same(section, want), items_s, value_s)
 }
 
-fn run_write(prefill: &str, p: &str) -> String {
+fn run_write(prefill: &str, p: &str, hist: Option<&str>) -> String {
     let pl = payload(p);
-    let pre = bytes_expr(prefill);
-    let n0 = pre.len();
+    let mut pre = bytes_expr(prefill);
     let mut w = v2::Writer::from(pre.clone());
+    if let Some(h) = hist {
+        // earlier writes into the same writer (their results are not looked at).  `Writer` only gives its bytes away
+        // by value, so the history is played twice: once to learn what the writer holds afterwards (the prefill of
+        // the measured write), once on the writer that is measured, which keeps whatever state it has besides its bytes
+        for q in h.split(';') {
+            let _ = payload(q).write_to(&mut w);
+        }
+        pre = w.finish();
+        w = v2::Writer::from(bytes_expr(prefill));
+        for q in h.split(';') {
+            let _ = payload(q).write_to(&mut w);
+        }
+    }
+    let n0 = pre.len();
     let r = pl.write_to(&mut w);
     let out = w.finish();
     let kept = out.len() >= n0 && out[..n0] == pre[..];
@@ -643,9 +675,10 @@ fn run_write(prefill: &str, p: &str) -> String {
         Ok(v) => format!("OK {}", hexs(&v)),
         Err(_) => "ERR".to_string(),
     };
+    let tail = if hist.is_some() { format!(" pre={}", n0) } else { String::new() };
     match r {
-        Ok(n) => format!("W=OK {} kept={} app={} TB={}", n, kept as u8, hexs(&out[n0.min(out.len())..]), tb),
-        Err(_) => format!("W=ERR kept={} app={} TB={}", kept as u8, hexs(&out[n0.min(out.len())..]), tb),
+        Ok(n) => format!("W=OK {} kept={} app={} TB={}{}", n, kept as u8, hexs(&out[n0.min(out.len())..]), tb, tail),
+        Err(_) => format!("W=ERR kept={} app={} TB={}{}", kept as u8, hexs(&out[n0.min(out.len())..]), tb, tail),
     }
 }
 
@@ -954,18 +987,50 @@ fn run_std(kind: &str, arg: &str) -> String {
 
 // ---------------------------------------------------------------------------------------------
 
+/// An input placed inside a larger buffer so that the slice handed to the crate starts at a chosen address modulo 16
+/// (derived from the case line): code that depends on where the bytes live -- `align_to`, word-at-a-time searches --
+/// is exercised at every alignment, not only at the allocator's.
+struct Placed {
+    buf: Vec<u8>,
+    off: usize,
+    len: usize,
+}
+
+impl Placed {
+    fn new(x: &[u8], salt: u64) -> Placed {
+        let mut buf = vec![0xA5u8; x.len() + 48];
+        let base = buf.as_ptr() as usize;
+        let want = (salt % 16) as usize;
+        let off = 16 + ((want + 16 - (base + 16) % 16) % 16);
+        buf[off..off + x.len()].copy_from_slice(x);
+        Placed { buf, off, len: x.len() }
+    }
+    fn as_slice(&self) -> &[u8] {
+        &self.buf[self.off..self.off + self.len]
+    }
+}
+
+fn salt_of(line: &str) -> u64 {
+    let mut h: u64 = 0xcbf29ce484222325;
+    for b in line.bytes() {
+        h = (h ^ b as u64).wrapping_mul(0x100000001b3);
+    }
+    h ^ (h >> 29)
+}
+
 fn run_case(line: &str) -> String {
     let mut f = line.split(' ');
     let mode = f.next().unwrap();
+    let salt = salt_of(line);
     match mode {
         "v1b" => {
-            let x = bytes_expr(f.next().unwrap());
+            let x = Placed::new(&bytes_expr(f.next().unwrap()), salt);
             show_v1b(&v1::Header::try_from(x.as_slice()))
         }
         // the three &str entry points; the input must be valid UTF-8 (the generator guarantees it)
         "v1s" | "v1fh" | "v1fa" => {
-            let x = bytes_expr(f.next().unwrap());
-            let s = match std::str::from_utf8(&x) {
+            let x = Placed::new(&bytes_expr(f.next().unwrap()), salt);
+            let s = match std::str::from_utf8(x.as_slice()) {
                 Ok(s) => s,
                 Err(_) => return "NOTUTF8".to_string(),
             };
@@ -976,26 +1041,26 @@ fn run_case(line: &str) -> String {
             }
         }
         "v2" => {
-            let x = bytes_expr(f.next().unwrap());
+            let x = Placed::new(&bytes_expr(f.next().unwrap()), salt);
             show_v2(&v2::Header::try_from(x.as_slice()))
         }
         "auto" => {
-            let x = bytes_expr(f.next().unwrap());
+            let x = Placed::new(&bytes_expr(f.next().unwrap()), salt);
             show_auto(&HeaderResult::parse(x.as_slice()))
         }
         "tlv" => {
-            let x = bytes_expr(f.next().unwrap());
+            let x = Placed::new(&bytes_expr(f.next().unwrap()), salt);
             show_tlvs(v2::TypeLengthValues::from(x.as_slice()))
         }
         "htlv" => {
-            let x = bytes_expr(f.next().unwrap());
+            let x = Placed::new(&bytes_expr(f.next().unwrap()), salt);
             match v2::Header::try_from(x.as_slice()) {
                 Ok(h) => show_tlvs(h.tlvs()),
                 Err(_) => "REJ".to_string(),
             }
         }
-        "views2" => views2(&bytes_expr(f.next().unwrap())),
-        "views1" => views1(&bytes_expr(f.next().unwrap())),
+        "views2" => views2(Placed::new(&bytes_expr(f.next().unwrap()), salt).as_slice()),
+        "views1" => views1(Placed::new(&bytes_expr(f.next().unwrap()), salt).as_slice()),
         "fmt1" => run_fmt1(f.next().unwrap()),
         "build" => {
             let c = f.next().unwrap();
@@ -1007,11 +1072,11 @@ fn run_case(line: &str) -> String {
             let ops = f.next().unwrap();
             run_buildparse(c, ops)
         }
-        "rebuild" => run_rebuild(&bytes_expr(f.next().unwrap())),
+        "rebuild" => run_rebuild(Placed::new(&bytes_expr(f.next().unwrap()), salt).as_slice()),
         "write" => {
             let pre = f.next().unwrap();
             let p = f.next().unwrap();
-            run_write(pre, p)
+            run_write(pre, p, f.next())
         }
         "ctor" => {
             let k = f.next().unwrap();
